@@ -7,6 +7,7 @@ use crate::ans;
 use crate::range;
 use crate::bits;
 use crate::backend;
+use crate::chain;
 use crate::common::*;
 
 #[derive(Clone, Debug, Serialize, Deserialize, PartialEq)]
@@ -15,6 +16,7 @@ pub enum Trace {
     Range(range::RangeTrace),
     Bits(bits::BitsTrace),
     Backend(backend::BackendTrace),
+    Chain(chain::ChainTrace),
 }
 
 pub struct Meta {
@@ -31,7 +33,8 @@ pub fn worlds_for(prop: &str) -> &'static [&'static str] {
         "C02" | "C11" => &["range"],
         "C06" | "C07" | "C12" => &["ans", "range"],
         "C08" | "C18" => &["ans", "range", "bits"],
-        "C09" => &["ans", "range", "ans", "range", "bits"],
+        "C09" => &["ans", "range", "ans", "range", "bits", "chain"],
+        "C13" | "C14" => &["chain"],
         "C16" => &["bits"],
         "C17" => &["backend"],
         _ => &[],
@@ -46,6 +49,7 @@ pub fn generate(prop: &str, seed: u64, index: u64, thorough: bool) -> Trace {
         "range" => Trace::Range(range::generate(seed, prop, thorough)),
         "bits" => Trace::Bits(bits::generate(seed, prop, thorough)),
         "backend" => Trace::Backend(backend::generate(seed, prop, thorough)),
+        "chain" => Trace::Chain(chain::generate(seed, prop, thorough)),
         w => panic!("harness: unknown world {}", w),
     }
 }
@@ -74,6 +78,7 @@ pub fn exec(t: &Trace, ctx: &mut Ctx) -> Result<(), Violation> {
             }
         }
         Trace::Backend(t) => backend::exec(t, ctx),
+        Trace::Chain(t) => chain::exec(t, ctx),
         Trace::Bits(t) => {
             if ctx.on("C08") {
                 let twin = {
@@ -122,6 +127,7 @@ pub fn ops_len(t: &Trace) -> usize {
         Trace::Range(t) => t.ops.len(),
         Trace::Bits(t) => t.ops.len(),
         Trace::Backend(t) => t.ops.len(),
+        Trace::Chain(t) => t.steps.len(),
     }
 }
 
@@ -147,12 +153,31 @@ pub fn without_ops(t: &Trace, from: usize, to: usize) -> Trace {
             t.ops.drain(from..to.min(t.ops.len()));
             Trace::Backend(t)
         }
+        Trace::Chain(t) => {
+            let mut t = t.clone();
+            t.steps.drain(from..to.min(t.steps.len()));
+            Trace::Chain(t)
+        }
     }
 }
 
 pub fn simplifications(t: &Trace) -> Vec<Trace> {
     let mut out = Vec::new();
     match t {
+        Trace::Chain(t) => {
+            if t.data.len() > 2 {
+                for cut in [t.data.len() / 2, 1] {
+                    let mut c = t.clone();
+                    c.data.drain(0..cut);
+                    out.push(Trace::Chain(c));
+                }
+            }
+            if t.way != chain::Way::Suffix {
+                let mut c = t.clone();
+                c.way = chain::Way::Suffix;
+                out.push(Trace::Chain(c));
+            }
+        }
         Trace::Bits(t) => {
             if t.backend != bits::BBackend::Vec {
                 let mut c = t.clone();
